@@ -359,6 +359,10 @@ def _build_evaluator_iterative(
         VectorSum,
         VectorVariable,
         VectorExpressionSum,
+        ElementwisePower,
+        VectorPowerSum,
+        ElementwiseUnary,
+        VectorUnarySum,
     )
     from optyx.core.matrices import QuadraticForm, MatrixSum, FrobeniusNorm
 
@@ -458,6 +462,13 @@ def _build_evaluator_iterative(
 
         if isinstance(node, (MatrixSum, FrobeniusNorm)):
             result_stack.append(_build_matrix_reduction_evaluator(node, var_indices))
+            continue
+
+        if isinstance(
+            node, (VectorPowerSum, VectorUnarySum, ElementwisePower, ElementwiseUnary)
+        ):
+            # Vectorized nodes over a VectorVariable are leaves: no recursion
+            result_stack.append(_build_evaluator(node, var_indices))
             continue
 
         # Binary operation
